@@ -63,3 +63,64 @@ CHECKS['C04'] = dict(
          'class/module must be offered every source-defined attribute the run-time object has.',
     note=STUBS + '; string/number/comment positions and string-like completions are not judged by the identifier clauses',
     technique='small-scope exhaustive enumeration of (text, cursor, fuzzy); oracles = result-list algebra and CPython dir() of executed receivers')
+CHECKS['C03'] = dict(
+    text='Bounded-exhaustive exploration of scope nestings (module > def/class/lambda/comprehension, '
+         'depth <= 3 quick / <= 4 thorough) x binding patterns x binding forms for one identifier; '
+         'each program is executed with tagged bindings so every executed use names the binding '
+         'site it really read; oracle = symtable (scope of resolution) + the observed tag: goto '
+         'must land on same-spelled definitions of that scope, never in a scope Python does not '
+         'consult, and exactly on the observed assignment for straight-line code.',
+    note=STUBS + '; one identifier; goto with default flags; CPython 3.12 comprehension inlining handled by a generator-expression rendering for symtable',
+    technique='small-scope exhaustive enumeration of scope shapes; differential oracle = CPython execution with tagged bindings + symtable')
+CHECKS['C10'] = dict(
+    text='Bounded-exhaustive exploration of project trees (module / regular package / namespace '
+         'directory, clashing names a/ab, one or two sys.path roots in every order, nested roots) x '
+         'import forms issued from a top-level script and from every module; oracle = a clean '
+         'child CPython (-I -S, sys.path = roots) run under four import orders; infer and '
+         'goto(follow_imports) must name the same file / namespace path set / nothing; dotted '
+         'names derived for files must import back to them.',
+    note=STUBS + '; Project(sys_path=roots, smart_sys_path=False); cases whose CPython answer depends on import order accept any of the four',
+    technique='small-scope exhaustive enumeration of directory trees x import forms; differential oracle = importlib in a clean child interpreter')
+CHECKS['C11'] = dict(
+    text='Bounded-exhaustive exploration of parameter lists over {positional-only, positional-or-'
+         'keyword, *args, keyword-only, **kwargs} x {default, annotation} (<= 3 quick / <= 4 '
+         'thorough) x 9 carriers (function, methods, classmethod, staticmethod, __init__, wraps, '
+         'pass-through wrappers) x call prefixes with the cursor in every slot; oracle = '
+         'inspect.signature / inspect.getdoc of the executed definition, call-shape binding, and '
+         'a slot-class reading of index validated against upstream\'s hand-written table.',
+    note=STUBS + '; index after */** unpacking only has to be right for some length; parameter names never start with __',
+    technique='small-scope exhaustive enumeration of (signature, call prefix, cursor slot); differential oracle = inspect on the executed definition')
+CHECKS['C12'] = dict(
+    text='Bounded-exhaustive product of adversarial project trees (every file writes a sentinel at '
+         'import; conftest/setup/sitecustomize/auto_import_modules names/.pth/buildout/django/'
+         'real and fake .so) x 19 import forms x project options x environments x every query and '
+         'refactoring call; after every single API call: sentinel absent, no project module in '
+         'sys.modules, sys.path/cwd/environ unchanged - in the host and in the helper process '
+         '(read back through the existing protocol). Non-vacuity controls run in every run.',
+    note=STUBS + '; load_unsafe_extensions left at False (a project.json inside the tree that sets it is outside the premise and recorded, not judged)',
+    technique='exhaustive product enumeration with per-call observation of host and helper process state')
+CHECKS['C13'] = dict(
+    text='Bounded-exhaustive exploration of live object graphs (12 special-method features alone '
+         'and in pairs, on class/base/metaclass; file/exec/type()-created variants; builtin-'
+         'container subclasses; nested containers) x expressions reaching them x all Interpreter '
+         'queries x {safe, unsafe}; oracle = call counters inside the user-defined special '
+         'methods (must stay 0 in safe mode), dir(obj) for completions, type(stored object) for '
+         'infer on plain paths.',
+    note=STUBS + '; __getattr__/__getattribute__/__dir__ are counted, not judged (the property does not list them)',
+    technique='small-scope exhaustive enumeration of (object graph, expression, query, mode) with counter oracle')
+CHECKS['C19'] = dict(
+    text='Bounded-exhaustive products of generated project trees (built-in ignored folder names and '
+         'near-misses, .gitignore at levels 0-2 x 14 pattern kinds x placements, definition kinds, '
+         'module/package kinds, parse-limit family) under ascending and descending directory '
+         'listing order x every identifier/prefix x search/complete_search x all_scopes x typed '
+         'and dotted forms; oracle = the generator\'s inventory + a 15-line reference of the '
+         'ignore rules; Script.search == filtered get_names.',
+    note=STUBS + '; completeness demanded for exact-case spellings; directory listing order is an explorer choice (os.scandir seam)',
+    technique='exhaustive product enumeration of directory trees x queries against a reference inventory')
+CHECKS['C20'] = dict(
+    text='Full product of Project constructor arguments (12 672 configurations) x three ways of '
+         'loading x 36 script locations x get_sys_path variants; oracle = value equality after '
+         'save/load and a 12-line reference model of the documented sys.path composition, plus '
+         'import resolution compared with importlib.machinery.PathFinder on the composed path.',
+    note=STUBS + '; private environment passed to every Script; no .. in relative paths',
+    technique='exhaustive product enumeration of configurations against a reference model')
